@@ -91,4 +91,50 @@ theorem step_fd (s : St) (h₁ : s.Interrupt = none) (h₂ : s.Memory = .user) (
   rw [hobl _ _ (by simp [h₂])]
   simp
 
+/-- `DD CB d b` at PC -/
+theorem step_ddcb (s : St) (h₁ : s.Interrupt = none) (h₂ : s.Memory = .user) (d b : U8)
+    (hp : s.mem s.PC = 0xdd#8) (hq : s.mem (s.PC + 1#16) = 0xcb#8) (hd : s.mem (s.PC + 2#16) = d)
+    (hb : s.mem (s.PC + 3#16) = b)
+    (hobl : ∀ (c0 c1 d : U8) (s : St), s.Memory = .user →
+      executeOne_sw_dd_cb c0 c1 d b s = execOpt Impl.koron [c0, c1, d, b] (decodeXYCB .IX d b.toNat) s) :
+    Gen.Step s = execOpt Impl.koron [0xdd#8, 0xcb#8, d, b] (decodeXYCB .IX d b.toNat)
+      (afterM1 (afterFetch (afterM1 (afterM1 s)))) := by
+  rw [gen_Step_noint s h₁]
+  simp only [Gen.executeOne, bind_run, gen_fetchM1 s h₂, Res.bind_ok, hp, executeOne_sw_at_dd, executeOne_arm_dd]
+  rw [gen_fetchM1 _ (by simp [h₂])]
+  have e1 : (afterM1 s).mem (afterM1 s).PC = 0xcb#8 := by simpa [afterM1] using hq
+  simp only [Res.bind_ok, e1, bind_run, executeOne_sw_dd_at_cb, executeOne_arm_dd_cb]
+  rw [gen_fetch _ (by simp [h₂])]
+  simp only [Res.bind_ok, bind_run]
+  rw [gen_fetchM1 _ (by simp [h₂])]
+  have e2 : (afterM1 (afterM1 s)).mem (afterM1 (afterM1 s)).PC = d := by simpa [afterM1, z80helper] using hd
+  have e3 : (afterFetch (afterM1 (afterM1 s))).mem (afterFetch (afterM1 (afterM1 s))).PC = b := by
+    simpa [afterM1, afterFetch, z80helper] using hb
+  simp only [Res.bind_ok, e2, e3, bind_run, pure_run]
+  rw [hobl _ _ _ _ (by simp [h₂])]
+  simp
+
+/-- `FD CB d b` at PC -/
+theorem step_fdcb (s : St) (h₁ : s.Interrupt = none) (h₂ : s.Memory = .user) (d b : U8)
+    (hp : s.mem s.PC = 0xfd#8) (hq : s.mem (s.PC + 1#16) = 0xcb#8) (hd : s.mem (s.PC + 2#16) = d)
+    (hb : s.mem (s.PC + 3#16) = b)
+    (hobl : ∀ (c0 c1 d : U8) (s : St), s.Memory = .user →
+      executeOne_sw_fd_cb c0 c1 d b s = execOpt Impl.koron [c0, c1, d, b] (decodeXYCB .IY d b.toNat) s) :
+    Gen.Step s = execOpt Impl.koron [0xfd#8, 0xcb#8, d, b] (decodeXYCB .IY d b.toNat)
+      (afterM1 (afterFetch (afterM1 (afterM1 s)))) := by
+  rw [gen_Step_noint s h₁]
+  simp only [Gen.executeOne, bind_run, gen_fetchM1 s h₂, Res.bind_ok, hp, executeOne_sw_at_fd, executeOne_arm_fd]
+  rw [gen_fetchM1 _ (by simp [h₂])]
+  have e1 : (afterM1 s).mem (afterM1 s).PC = 0xcb#8 := by simpa [afterM1] using hq
+  simp only [Res.bind_ok, e1, bind_run, executeOne_sw_fd_at_cb, executeOne_arm_fd_cb]
+  rw [gen_fetch _ (by simp [h₂])]
+  simp only [Res.bind_ok, bind_run]
+  rw [gen_fetchM1 _ (by simp [h₂])]
+  have e2 : (afterM1 (afterM1 s)).mem (afterM1 (afterM1 s)).PC = d := by simpa [afterM1, z80helper] using hd
+  have e3 : (afterFetch (afterM1 (afterM1 s))).mem (afterFetch (afterM1 (afterM1 s))).PC = b := by
+    simpa [afterM1, afterFetch, z80helper] using hb
+  simp only [Res.bind_ok, e2, e3, bind_run, pure_run]
+  rw [hobl _ _ _ _ (by simp [h₂])]
+  simp
+
 end Z80
